@@ -6,7 +6,10 @@ real `qupulse.serialization` code once without fault (reference run, records the
 per position k of a single injected failure among the backend calls and the patched
 `open` / file `write` / `os.remove` / `os.rename` / `os.replace` / `tempfile.mkstemp` /
 `zipfile.ZipFile.__init__/writestr/close` calls, in two modes: `raise` (an `OSError` instead of the k-th
-call; exception handlers run) and `crash` (a forked child `os._exit`s at the k-th call; nothing runs).
+call; exception handlers run) and `crash` (a forked child `os._exit`s at the k-th call or right after the
+k-th file-level call returned; nothing runs, nothing in user-space file buffers reaches the disk).
+A second stream runs HISTORIES: several transactions on one live PulseStorage that share sub-template
+objects, one of them failing at every position, observed through a new storage after every transaction.
 Afterwards the storage object is abandoned, a new `PulseStorage` over a new backend object on the same
 directory / archive lists and loads everything.  The state is compared with the Lean model's
 `run (steps.take k)` and judged with the executable spec `loadableB` (proved `↔ Loadable`).
@@ -171,29 +174,46 @@ class InjectedFault(OSError):
     pass
 
 
+# calls after whose return the process may die as well (crash mode, `when='after'`): the file-level calls; the
+# zip-level calls write into a temporary archive whose close is a position of its own (`zipclose`)
+AFTER_KINDS = ('open:w', 'write', 'close', 'remove', 'rename', 'replace')
+
+
 class Injector:
     """Counts the events performed by the code under test and makes the k-th fail.
-    mode 'raise': raise OSError instead of performing the call; 'crash': os._exit(99)."""
+    mode 'raise': raise OSError instead of performing the call (handlers run);
+    mode 'crash': the process dies with os._exit — `when='at'`: instead of performing the k-th call,
+    `when='after'`: immediately after the k-th call returned (before anything else, e.g. the close of a
+    surrounding `with open(...)` block, can run). Nothing is flushed on behalf of the code under test: what is
+    in user-space file buffers when the process dies is lost."""
 
-    def __init__(self, scratch: Scratch, fail_at=None, mode='raise'):
+    def __init__(self, scratch: Scratch, fail_at=None, mode='raise', when='at'):
         self.scratch = scratch
         self.fail_at = fail_at
         self.mode = mode
-        self.events = []          # (kind, target) in execution order, until the fault fired
+        self.when = when
+        self.events = []          # (kind, target, performed) in execution order, until the fault fired
         self.fired = False
         self.active = False
 
     # -- the core ----------------------------------------------------------------------------
     def event(self, kind: str, target: str = ''):
+        """called before the call is performed; returns the event index (None when not recording)"""
         if not self.active or self.fired:
-            return
+            return None
         idx = len(self.events)
         self.events.append([kind, target, True])
-        if self.fail_at is not None and idx == self.fail_at:
+        if self.fail_at is not None and idx == self.fail_at and self.when == 'at':
             self.fired = True
             if self.mode == 'crash':
                 os._exit(99)
             raise InjectedFault('injected failure at event %d (%s %s)' % (idx, kind, target))
+        return idx
+
+    def done(self, idx):
+        """called right after the call of event `idx` returned"""
+        if idx is not None and self.mode == 'crash' and self.when == 'after' and idx == self.fail_at:
+            os._exit(99)
 
     def failed_naturally(self):
         """the last recorded event raised by itself (e.g. os.remove of a missing file)"""
@@ -230,12 +250,26 @@ class Injector:
         class FileProxy:
             def __init__(self, f):
                 self._f = f
+                self._closed = False
 
             def write(self, data):
-                inj.event('write', self._t)
-                r = self._f.write(data)
-                if inj.mode == 'crash':
-                    self._f.flush()
+                idx = inj.event('write', self._t)
+                r = self._f.write(data)       # stays in the user-space buffer until flush/close
+                inj.done(idx)
+                return r
+
+            def _close_event(self):
+                # closing (= flushing) is a position of its own in crash mode only: a `close` that raises
+                # instead of closing has no sensible meaning in raise mode
+                if self._closed or inj.mode != 'crash':
+                    return None
+                self._closed = True
+                return inj.event('close', self._t)
+
+            def close(self):
+                idx = self._close_event()
+                r = self._f.close()
+                inj.done(idx)
                 return r
 
             def __enter__(self):
@@ -243,7 +277,10 @@ class Injector:
                 return self
 
             def __exit__(self, *a):
-                return self._f.__exit__(*a)
+                idx = self._close_event()
+                r = self._f.__exit__(*a)
+                inj.done(idx)
+                return r
 
             def __getattr__(self, name):
                 return getattr(self._f, name)
@@ -256,12 +293,13 @@ class Injector:
             if not t or not inj.active:
                 return real_open(file, mode, *a, **kw)
             writing = any(c in mode for c in 'wax+')
-            inj.event('open:w' if writing else 'open:r', t)
+            idx = inj.event('open:w' if writing else 'open:r', t)
             try:
                 f = real_open(file, mode, *a, **kw)
             except OSError:
                 inj.failed_naturally()
                 raise
+            inj.done(idx)
             if writing:
                 p = FileProxy(f)
                 p._t = t
@@ -273,40 +311,54 @@ class Injector:
                 t = inj._target(a[0]) if a else ''
                 if not t:
                     return real(*a, **kw)
-                inj.event(kind, t)
+                idx = inj.event(kind, t)
                 try:
-                    return real(*a, **kw)
+                    r = real(*a, **kw)
                 except OSError:
                     inj.failed_naturally()
                     raise
+                inj.done(idx)
+                return r
             return w
 
         def p_mkstemp(*a, **kw):
             d = kw.get('dir', a[2] if len(a) > 2 else None)
+            idx = None
             if d is not None and os.path.abspath(d or '.').startswith(inj.scratch.root):
-                inj.event('mkstemp', 'tmp')
-            return real_mkstemp(*a, **kw)
+                idx = inj.event('mkstemp', 'tmp')
+            r = real_mkstemp(*a, **kw)
+            inj.done(idx)
+            return r
 
         def p_init(zself, file, mode='r', *a, **kw):
             t = inj._target(file)
+            idx = None
             if t:
-                inj.event('zipopen:' + mode[0], t)
+                idx = inj.event('zipopen:' + mode[0], t)
             zself._c11_target = t
             zself._c11_mode = mode[0]
-            return real_init(zself, file, mode, *a, **kw)
+            r = real_init(zself, file, mode, *a, **kw)
+            inj.done(idx)
+            return r
 
         def p_writestr(zself, *a, **kw):
             t = getattr(zself, '_c11_target', '')
+            idx = None
             if t:
-                inj.event('writestr', t)
-            return real_writestr(zself, *a, **kw)
+                idx = inj.event('writestr', t)
+            r = real_writestr(zself, *a, **kw)
+            inj.done(idx)
+            return r
 
         def p_close(zself):
             t = getattr(zself, '_c11_target', '')
+            idx = None
             if t and getattr(zself, '_c11_mode', 'r') != 'r' and getattr(zself, 'fp', None) is not None \
                     and inj.mode == 'crash':
-                inj.event('zipclose', t)
-            return real_close(zself)
+                idx = inj.event('zipclose', t)
+            r = real_close(zself)
+            inj.done(idx)
+            return r
 
         patches = [
             mock.patch.object(builtins, 'open', p_open),
@@ -441,13 +493,13 @@ def observe(scratch: Scratch) -> dict:
     return {'view': view, 'loads': loads, 'leftovers': scratch.leftovers()}
 
 
-def execute(case: dict, content: dict, scratch: Scratch, fail_at, mode: str) -> dict:
+def execute(case: dict, content: dict, scratch: Scratch, fail_at, mode: str, when: str = 'at') -> dict:
     """Fill the scratch backend with `content`, open a live PulseStorage, run the transaction with a fault
     at event `fail_at` (None: no fault). Returns events, the exception, the live object's state and what
     a new storage observes afterwards."""
     ser = _ser()
     scratch.fill(content)
-    inj = Injector(scratch, fail_at, mode)
+    inj = Injector(scratch, fail_at, mode, when)
     inner = scratch.open_backend()
     backend = inj.wrap_backend(inner)
     live = ser.PulseStorage(backend)
@@ -840,12 +892,18 @@ def impl_case(case: dict, backend: str, modes=('raise', 'crash'), only=None) -> 
         for mode in modes:
             if mode not in traces:
                 continue
-            for k in range(traces[mode]['n']):
-                if only is not None and (mode, k) != tuple(only):
+            positions = [(k, 'at') for k in range(traces[mode]['n'])]
+            if mode == 'crash':
+                # the process may also die right after a call returned, before e.g. the surrounding
+                # `with open(...)` block closes (and thereby flushes) the file
+                positions += [(k, 'after') for k, kind in enumerate(traces[mode]['events']) if kind in AFTER_KINDS]
+            for k, when in positions:
+                tag = mode if when == 'at' else mode + '-after'
+                if only is not None and (tag, k) != tuple(only):
                     continue
-                r = execute(case, content, scratch, k, mode)
+                r = execute(case, content, scratch, k, mode, when)
                 obs = r['obs']
-                rec = {'k': k, 'mode': mode, 'm': traces[mode]['steps_before'][k],
+                rec = {'k': k, 'mode': tag, 'm': traces[mode]['steps_before'][k + (when == 'after')],
                        'view': canon_impl(ab, obs['view']), 'view_sx': ab.view(obs['view']),
                        'loads': {ab.ident(i): v for i, v in obs['loads'].items() if v != 'ok'},
                        'leftovers': len(obs['leftovers']), 'exc': r.get('exc'), 'exit': r.get('exit')}
@@ -882,6 +940,331 @@ def _crash_trace(case, content, scratch):
         pass
     return {'events': inj.events,
             'steps_before': [len(inj.step_kinds(k)) for k in range(len(inj.events) + 1)]}
+
+
+# ---------------------------------------------------------------------------------------------
+# histories: several transactions on ONE live PulseStorage, a failure in one of them
+# ---------------------------------------------------------------------------------------------
+# case = {'pre': [...], 'txns': [txn, ...], 'fault_step': f, 'all_ids': [...]}; specs carry 'oid's that are
+# shared across the transactions of the history: the same Python object occurs in several stores.
+
+NO_FAULT = 1000000
+
+
+def ref_docs(ident: str, obj) -> dict:
+    """serializations of the named nodes of one tree (independent of any storage content)"""
+    ser = _ser()
+    backend = ser.DictBackend()
+    try:
+        ser.PulseStorage(backend).overwrite(ident, obj)
+    except Exception:  # noqa
+        return {}
+    return dict(backend.storage)
+
+
+def live_node_sexp(ab: Abstraction, spec: dict, memo: dict, live, docs: dict):
+    """Lean `Node` of a built spec as the live storage meets it now: `reused` = the storage caches this very
+    object under its identifier"""
+    ident, oid = spec.get('id'), spec.get('oid', 0)
+    obj = memo.get(oid)
+    cached = live.temporary_storage.get(ident) if ident is not None else None
+    reused = cached is not None and cached.serializable is obj
+    tok = ab.token(docs[ident]) if ident is not None and ident in docs else 0
+    return ['n', '-' if ident is None else ab.ident(ident), oid, tok, spec['k'] != 'bad', bool(reused),
+            [live_node_sexp(ab, c, memo, live, docs) for c in spec.get('c', ())]]
+
+
+def exec_history(case: dict, content: dict, scratch: Scratch, fault_k) -> dict:
+    """Run the whole history on one live PulseStorage; the transaction `fault_step` gets an OSError at its
+    event `fault_k` (None: no fault). After every transaction a NEW backend object / PulseStorage observes."""
+    ser = _ser()
+    scratch.fill(content)
+    inj = Injector(scratch, None, 'raise')
+    backend = inj.wrap_backend(scratch.open_backend())
+    live = ser.PulseStorage(backend)
+    ab = Abstraction(case['all_ids'])
+    for i in sorted(content):
+        ab.token(content[i])
+    memo = {}
+    f = case['fault_step']
+    steps, model_steps = [], []
+    for j, txn in enumerate(case['txns']):
+        inj.events, inj.fired = [], False
+        inj.fail_at = fault_k if j == f else None
+        exc, obj = None, None
+        if txn.get('tree') is not None:
+            obj = build(txn['tree'], live, memo)
+            docs = ref_docs(txn['id'], obj)
+            tsx = [txn['op'], ab.ident(txn['id']), live_node_sexp(ab, txn['tree'], memo, live, docs)]
+        else:
+            tsx = ['del', ab.ident(txn['id'])]
+        cache_before = {i: e.serializable for i, e in live.temporary_storage.items()}
+        try:
+            with inj.window():
+                if txn['op'] == 'overwrite':
+                    live.overwrite(txn['id'], obj)
+                elif txn['op'] == 'setitem':
+                    live[txn['id']] = obj
+                else:
+                    del live[txn['id']]
+        except InjectedFault:
+            exc = 'injected'
+        except Exception as e:  # noqa
+            exc = type(e).__name__
+        obs = observe(scratch)
+        model_steps.append([tsx, NO_FAULT])
+        steps.append({'exc': exc, 'fired': inj.fired, 'view': canon_impl(ab, obs['view']),
+                      'view_sx': ab.view(obs['view']),
+                      'loads': {ab.ident(i): v for i, v in obs['loads'].items() if v != 'ok'},
+                      'cache': [ab.ident(i) for i in live.temporary_storage.keys()],
+                      'same_objects': all(live.temporary_storage[i].serializable is o
+                                          for i, o in cache_before.items() if i in live.temporary_storage),
+                      'txn_open': getattr(live, '_transaction_storage', None) is not None,
+                      'events': [e[0] for e in inj.events] if j == f else None,
+                      'steps_before': [len(inj.step_kinds(k)) for k in range(len(inj.events) + 1)] if j == f else None})
+    pre_sx = ab.store(content)
+    return {'model_steps': model_steps, 'kind': scratch.kind, 'steps': steps, 'pre_sx': pre_sx,
+            'pre_view': canon_impl(ab, content), 'names': {v: k for k, v in ab.num.items()}}
+
+
+def history_line(run: dict, f: int, changes) -> str:
+    """the model request of one run; the failed transaction is cut after `changes` changes of the view"""
+    ms = [list(m) for m in run['model_steps']]
+    if changes is not None:
+        ms[f][1] = ['changes', changes]
+    return sx(['c11', 'history', run['kind'], run['pre_sx'], [], ms])
+
+
+def impl_history(case: dict, backend: str, only=None) -> dict:
+    """Implementation side of one (history, backend): the fault-free run and one run per failure position of
+    the transaction `fault_step` (raise mode)."""
+    scratch = Scratch(backend)
+    try:
+        content = reference_content(case['pre']) if case['pre'] else {}
+        ref = exec_history(case, content, scratch, None)
+        f = case['fault_step']
+        entry = ref['steps'][f - 1]['view'] if f > 0 else ref['pre_view']
+        runs = []
+        ref['k'] = None
+        ref['line'] = history_line(ref, f, None)
+        if only is None or only == 'none':
+            runs.append(ref)
+        # position of a failure in model terms: how often the observable content changed before it. The
+        # failure positions are enumerated in order, so this is the number of distinct consecutive views so far
+        changes, last = 0, entry
+        for k in range(len(ref['steps'][f]['events'])):
+            r = exec_history(case, content, scratch, k)
+            r['k'] = k
+            if r['steps'][f]['view'] != last:
+                changes, last = changes + 1, r['steps'][f]['view']
+            r['line'] = history_line(r, f, changes)
+            if only is None or only == k:
+                runs.append(r)
+        return {'backend': backend, 'history': True, 'runs': runs}
+    finally:
+        scratch.cleanup()
+
+
+def gen_history(rng, index: int) -> dict:
+    counter = [0]
+    oids = [1000]
+
+    def new_id():
+        counter[0] += 1
+        return 'h%d' % counter[0]
+
+    def mk(kind, ident, children=(), v=None):
+        oids[0] += 1
+        spec = {'k': kind, 'id': ident, 'v': rng.randrange(100) if v is None else v, 'oid': oids[0]}
+        if kind not in ('table', 'bad'):
+            spec['c'] = list(children)
+        return spec
+
+    # named objects shared by the transactions of the history
+    pool = []
+    for _ in range(rng.randrange(1, 4)):
+        if pool and rng.random() < 0.3:
+            pool.append(mk('seq', new_id(), [rng.choice(pool), mk('table', None)]))
+        else:
+            pool.append(mk('table', new_id()))
+
+    def parent(extra=()):
+        kids = rng.sample(pool, rng.randrange(1, len(pool) + 1)) + list(extra)
+        rng.shuffle(kids)
+        if rng.random() < 0.3:
+            kids = [mk('rep', None, [kids[0]])] + kids[1:]
+        return mk('seq', new_id(), kids)
+
+    pre_specs = []
+    if rng.random() < 0.4:
+        t = {'k': 'table', 'id': new_id(), 'v': rng.randrange(100)}
+        pre_specs.append(assign_oids(t))
+    kind = rng.random()
+    txns = []
+    if kind < 0.6:
+        # a store that may fail (front end or write error), then further stores sharing its sub-template objects
+        sub = rng.random()
+        if sub < 0.3:
+            p1 = parent()
+            p1['c'].append(mk('bad', None))                       # un-serializable sibling met after the others
+        elif sub < 0.45 and pre_specs:
+            p1 = parent()
+            p1['c'].append(mk('table', pre_specs[0]['id']))      # identifier clash met after the others
+        else:
+            p1 = parent()
+        txns.append({'op': rng.choice(['setitem', 'overwrite']), 'id': p1['id'], 'tree': p1})
+        for _ in range(rng.randrange(1, 3)):
+            r = rng.random()
+            if r < 0.7:
+                p = parent([mk('table', new_id())] if rng.random() < 0.4 else [])
+                txns.append({'op': rng.choice(['setitem', 'overwrite']), 'id': p['id'], 'tree': p})
+            elif r < 0.85:
+                # overwrite the first parent by a new object built from the shared sub-templates
+                p = parent()
+                p['id'] = p1['id']
+                txns.append({'op': 'overwrite', 'id': p['id'], 'tree': p})
+            else:
+                txns.append({'op': 'del', 'id': txns[-1]['id']})
+        fault_step = 0 if rng.random() < 0.7 else rng.randrange(len(txns))
+    else:
+        # store a parent, delete it, delete a (now unreferenced) sub-template, store a parent of it again
+        s_node = pool[-1]
+        p1 = mk('seq', new_id(), [s_node] + ([mk('table', None)] if rng.random() < 0.5 else []))
+        txns.append({'op': 'setitem', 'id': p1['id'], 'tree': p1})
+        txns.append({'op': 'del', 'id': p1['id']})
+        txns.append({'op': 'del', 'id': s_node['id']})
+        p2 = mk('seq', new_id(), [mk('table', new_id()), s_node] if rng.random() < 0.5 else [s_node])
+        txns.append({'op': 'setitem', 'id': p2['id'], 'tree': p2})
+        fault_step = rng.randrange(len(txns))
+    ids = set()
+    for t in pre_specs:
+        ids |= set(spec_ids(t))
+    for t in txns:
+        ids.add(t['id'])
+        if t.get('tree') is not None:
+            ids |= set(spec_ids(t['tree']))
+    return {'pre': pre_specs, 'txns': txns, 'fault_step': fault_step, 'all_ids': sorted(ids), 'index': index}
+
+
+def check_history(ctx, case: dict, res: dict, answers: list, judged: dict):
+    backend = res['backend']
+    for run, ans in zip(res['runs'], answers):
+        if ans[0] != 'ok':
+            raise core.MachineryError('model rejected history request: %r' % (ans,))
+        names = run['names']
+
+        def nm(i):
+            try:
+                return names.get(int(i), '#%s' % i)
+            except ValueError:
+                return str(i)
+        k = run['k']
+        f = case['fault_step']
+        ctx.case('(fault %s %s %s)' % (backend, k, run['line']), nontrivial=True)
+        ctx.count('history-runs')
+        ctx.count('history-backend:' + backend)
+        before_impl, before_model = run['pre_view'], run['pre_view']
+        ok_so_far = True
+        for j, (st, m) in enumerate(zip(run['steps'], ans[1:])):
+            m_err, m_wf, _n, m_view, _verdict, _cache, _fin = m
+            m_view = canon_view(m_view)
+            if m_wf != 'true' or before_impl != before_model:
+                ok_so_far = False        # outside the theorems' hypotheses / states already apart
+            replay = {'kind': 'history', 'case': case, 'backend': backend,
+                      'fault': None if k is None else {'k': k}}
+            what = None
+            op = case['txns'][j]['op']
+            where = ('transaction %d (%s %s) of a history on one PulseStorage, %s backend, %s'
+                     % (j, op, case['txns'][j]['id'], backend,
+                        'no failure injected' if k is None else 'failure injected at event %d of transaction %d' % (k, f)))
+            if ok_so_far:
+                verdict = judged[(sx(st['view_sx']), j, id(run))]
+                if verdict != 'ok':
+                    what = 'after %s the storage is not loadable: %s' % (
+                        where, ' '.join(nm(x) for x in (verdict[1:] if isinstance(verdict, list) else [verdict])))
+                elif st['loads']:
+                    what = 'after %s a new PulseStorage cannot load %s' % (
+                        where, ', '.join('%s (%s)' % (nm(i), e) for i, e in sorted(st['loads'].items())))
+                elif st['exc'] is not None and st['view'] == before_impl and st['view'] is not None and (
+                        not set(st['cache']) <= set(st['view']) or st['txn_open']):
+                    what = ('%s failed before its first write but the storage object keeps a trace (cached %s, '
+                            'backend lists %s, transaction open: %s)'
+                            % (where, [nm(i) for i in st['cache']], [nm(i) for i in sorted(st['view'])], st['txn_open']))
+            if what:
+                ctx.violation(what, replay)
+                break
+            want_err = ERR_CLASS.get(st['exc'], st['exc'] or 'none')
+            line = '(history %s %s step %d %s)' % (backend, k, j, run['line'])
+            if st['view'] != m_view:
+                ctx.drift('history: state after a transaction', line, repr(st['view']), repr(m_view))
+                break
+            if st['exc'] != 'injected' and want_err != m_err:
+                ctx.drift('history: outcome of a transaction (exception class)', line, want_err, m_err)
+                break
+            ctx.count('history-outcome:' + ('injected' if st['exc'] == 'injected' else want_err))
+            before_impl, before_model = st['view'], m_view
+
+
+def _history_judge_lines(res: dict, answers: list):
+    """judge requests for every state of every run: (view, content before the transaction, intended content)"""
+    out = []
+    for run, ans in zip(res['runs'], answers):
+        before = run['pre_sx']
+        for j, (st, m) in enumerate(zip(run['steps'], ans[1:] if ans[0] == 'ok' else [])):
+            fin = m[6]
+            out.append(((sx(st['view_sx']), j, id(run)),
+                        '(c11 judge %s %s %s)' % (sx(st['view_sx']), sx(before), core.sx(_resx(fin)))))
+            before = st['view_sx']
+    return out
+
+
+def _resx(parsed):
+    """a store answered by the model, with the references of every document as a sorted set (the form the
+    harness extracts from the JSON text)"""
+    out = []
+    for i, d in parsed:
+        out.append([i, d if d == 'g' else ['d', d[1], [str(r) for r in sorted({int(r) for r in d[2]})]]])
+    return out
+
+
+def _history_job(args):
+    case, backend, only = args
+    import warnings
+    warnings.filterwarnings('ignore')
+    try:
+        return impl_history(case, backend, only)
+    except core.MachineryError:
+        raise
+    except Exception:  # noqa
+        import traceback
+        return {'backend': backend, 'harness_error': traceback.format_exc()[-1500:]}
+
+
+def run_histories(ctx, jobs: list):
+    if not jobs:
+        return
+    with _pool(ctx) as pool:
+        results = pool.map(_history_job, jobs, chunksize=max(1, len(jobs) // 64))
+    lines = []
+    for res in results:
+        if 'harness_error' in res:
+            raise core.MachineryError('harness failed on a history: ' + res['harness_error'])
+        lines.extend(r['line'] for r in res['runs'])
+    answers = core.Lean.run(lines)
+    pos, per_res = 0, []
+    for res in results:
+        n = len(res['runs'])
+        per_res.append(answers[pos:pos + n])
+        pos += n
+    keys, jl = [], []
+    for res, ans in zip(results, per_res):
+        for key, line in _history_judge_lines(res, ans):
+            keys.append(key)
+            jl.append(line)
+    judged = dict(zip(keys, core.Lean.run(jl)))
+    for (case, _b, _o), res, ans in zip(jobs, results, per_res):
+        check_history(ctx, case, res, ans, judged)
+        ctx.count('history:len%d' % len(case['txns']))
 
 
 def _job(args):
@@ -959,7 +1342,7 @@ def check(ctx, case: dict, res: dict, answers: list, judged: dict):
     ctx.count('outcome:' + want_err)
 
     n_steps = len(_strip_epilogue(model['kinds']))
-    impl_seq = {'raise': [], 'crash': []}
+    impl_seq = {'raise': [], 'crash': [], 'crash-after': []}
     for run in res['runs']:
         k, mode, m = run['k'], run['mode'], run['m']
         line = '(c11 fault %s %s %d %s)' % (backend, mode, k, res['lines'][0])
@@ -1005,7 +1388,7 @@ def check(ctx, case: dict, res: dict, answers: list, judged: dict):
         # distinct observable states (stuttering equivalence) with the repaired model
         ctx.count('stuttering-comparison')
         want = _dedup([st[0] for st in fixed_model['states'][:len(_strip_epilogue(fixed_model['kinds'])) + 1]])
-        for mode in ('raise', 'crash'):
+        for mode in ('raise', 'crash', 'crash-after'):
             if not impl_seq[mode]:
                 continue
             got = _dedup([res['pre_view']] + impl_seq[mode])
@@ -1020,7 +1403,7 @@ def check(ctx, case: dict, res: dict, answers: list, judged: dict):
 
 def _pool(ctx):
     import multiprocessing
-    n = int(os.environ.get('VERIF_PROCS', '0') or 0) or (4 if ctx.quick else 16)
+    n = int(os.environ.get('VERIF_PROCS', '0') or 0) or (8 if ctx.quick else 16)
     return multiprocessing.get_context('fork').Pool(n)
 
 
@@ -1061,7 +1444,10 @@ def run(ctx: core.Ctx):
                 'tree (new, shared and reused named children), overwrite of an existing entry, deletion of an '
                 'unreferenced entry, non-IO failures (un-serializable nested object, identifier clash, wrong '
                 'identifier), direct backend calls with overwrite flags; each on dir/zip/dict/caching-dir backends; '
-                'EVERY position k of one injected failure among the recorded events, in raise and crash mode. '
+                'EVERY position k of one injected failure among the recorded events, in raise and crash mode '
+                '(crash: at every call and after every file-level call, no flushing). Plus histories of 2-4 '
+                'transactions on one PulseStorage sharing sub-template objects, a failure at every position of one of '
+                'them, observed after every transaction. '
                 'Non-trivial = the failure hits strictly inside the transaction\'s steps or is a front-end failure; '
                 'distinct by (request line, backend, mode, k)')
     ctx.assumptions = [
@@ -1080,18 +1466,42 @@ def run(ctx: core.Ctx):
         for b in BACKENDS:
             if b == 'caching-dir' and index % 5:
                 continue
-            # crash mode forks one child per position: every third (quick) / second (thorough) transaction gets it
-            modes = ('raise', 'crash') if index % (3 if ctx.quick else 2) == 0 else ('raise',)
+            # crash mode forks one child per position. The directory backend gets it for every transaction
+            # (few positions, and only a real process death shows what an unflushed file looks like); the zip
+            # backend (many positions) for every fourth (quick) / second (thorough) transaction
+            crash = b == 'dir' or index % (4 if ctx.quick else 2) == 0
+            modes = ('raise', 'crash') if crash else ('raise',)
             jobs.append((case, b, modes, None))
         if len(jobs) >= 800:
             run_cases(ctx, jobs)
             jobs = []
     run_cases(ctx, jobs)
+    ctx.extra['single_txn_stream_s'] = round(ctx.elapsed(), 1)
+    hrng = ctx.fork('history')
+    hjobs = []
+    for index in range(ctx.n(60, 1500)):
+        h = gen_history(hrng, index)
+        for b in ('dict', 'dir', 'zip'):
+            if b == 'zip' and index % 2:
+                continue
+            hjobs.append((h, b, None))
+        if len(hjobs) >= 600:
+            run_histories(ctx, hjobs)
+            hjobs = []
+    run_histories(ctx, hjobs)
+    ctx.extra['history_stream_s'] = round(ctx.elapsed() - ctx.extra['single_txn_stream_s'], 1)
     ctx.exhaustive_spaces.append('every failure position k of every generated transaction, raise and crash mode '
                                  '(%d transactions x backends)' % n)
 
 
 def replay(ctx: core.Ctx, rec: dict, from_corpus: bool = False) -> bool:
+    if rec.get('kind') == 'history':
+        before = len(ctx.violations)
+        only = None
+        if 'fault' in rec and not from_corpus:
+            only = 'none' if rec['fault'] is None else rec['fault']['k']
+        run_histories(ctx, [(rec['case'], rec['backend'], only)])
+        return len(ctx.violations) == before
     if rec.get('kind') != 'txn':
         return True
     case = rec['case']
